@@ -220,6 +220,7 @@ func (x *Exec) nextGen() int { x.genCtr++; return x.genCtr }
 func (x *Exec) fldRef(st *State, T types.Type, field int, base *Term) *Term {
 	s, _ := isStructType(T)
 	name := fmt.Sprintf("fld_%s_%s", typeID(T), s.Field(field).Name())
+	x.derivedUFs[name] = 1
 	f := &UF{Name: name, Args: []Sort{SInt}, Ret: SInt}
 	inv := &UF{Name: name + "_inv", Args: []Sort{SInt}, Ret: SInt}
 	r := ufApp(f, base)
@@ -235,6 +236,7 @@ func (x *Exec) fldRef(st *State, T types.Type, field int, base *Term) *Term {
 
 func (x *Exec) elemRef(st *State, T types.Type, arr, idx *Term) *Term {
 	name := "elem_" + typeID(T)
+	x.derivedUFs[name] = 2
 	f := &UF{Name: name, Args: []Sort{SInt, SInt}, Ret: SInt}
 	invA := &UF{Name: name + "_arr", Args: []Sort{SInt}, Ret: SInt}
 	invI := &UF{Name: name + "_idx", Args: []Sort{SInt}, Ret: SInt}
